@@ -16,18 +16,32 @@ from symtorch import api, ctx as cx, terms as tm
 from symtorch import tensor as st
 
 
+class NotElementwise(Exception):
+    """fn does not map a tensor of the target's shape to a tensor of that shape"""
+
+
 class BisectStub:
-    def __init__(self, c, check_preconditions=True, name="bisect"):
+    def __init__(self, c, check_preconditions=True, name="bisect", degenerate=None):
         self.c = c
         self.calls = []
         self.check_preconditions = check_preconditions
         self.name = name
+        self.degenerate = degenerate  # optional region of the inputs (a relation) in which a known finding lives
 
     def __call__(self, fn, target, lower, upper, precision=1e-6, max_iter=100000):
         c = self.c
         k = len(self.calls)
         lower, upper = torch.as_tensor(lower), torch.as_tensor(upper)
         fl, fu = fn(lower), fn(upper)
+        tshape = tuple(target.shape) if isinstance(target, torch.Tensor) else ()
+        if tshape:
+            # contract of bisect: fn acts elementwise on tensors of the target's shape (after the first iteration the
+            # midpoints have that shape)
+            probe_full = fn(st.fresh_tensor(tshape, "probe", torch.float64))
+            elementwise = tuple(probe_full.shape) == tshape
+            c.check("%s call %d: fn maps a tensor of the target's shape elementwise" % (self.name, k), elementwise)
+            if not elementwise:
+                raise NotElementwise()
         # bisect is a deterministic function of (fn, target, lower, upper, precision): two calls whose arguments are
         # the same terms (fn compared through its values at the bracket ends and at a probe point) return the same value
         probe = fn((lower + upper) / 2)
@@ -43,7 +57,11 @@ class BisectStub:
         pfl, pfu = np.broadcast_to(st.payload(fl), shape), np.broadcast_to(st.payload(fu), shape)
         ok_bracket = tm.and_(*[tm.lt(a, b) for a, b in zip(pl.reshape(-1), pu.reshape(-1))])
         if self.check_preconditions:
-            c.check("%s call %d: lower < upper" % (self.name, k), ok_bracket)
+            if self.degenerate is None:
+                c.check("%s call %d: lower < upper" % (self.name, k), ok_bracket)
+            else:
+                c.check("%s call %d: lower < upper [non-constant sample]" % (self.name, k), api.implies(api.not_(self.degenerate), api.SymBool(ok_bracket)))
+                c.check("%s call %d: lower < upper [constant sample]" % (self.name, k), api.implies(self.degenerate, api.SymBool(ok_bracket)))
         if not c.decide(ok_bracket):
             raise ValueError("condition lower < upper should be satisfied.")
         decreasing = c.decide(tm.and_(*[tm.gt(a, b) for a, b in zip(pfl.reshape(-1), pfu.reshape(-1))]))
@@ -77,15 +95,21 @@ class BisectStub:
 class BisectSpy:
     """concrete replay: evaluate the same call-site preconditions numerically, then run the real bisect"""
 
-    def __init__(self, c, real, check_preconditions=True, name="bisect"):
+    def __init__(self, c, real, check_preconditions=True, name="bisect", degenerate=None):
         self.c, self.real, self.check_preconditions, self.name = c, real, check_preconditions, name
         self.calls = []
+        self.degenerate = degenerate
 
     def __call__(self, fn, target, lower, upper, precision=1e-6, max_iter=100000):
         c = self.c
         k = len(self.calls)
         self.calls.append({"precision": precision, "inside": api.Rel(True)})
         lo, up = torch.as_tensor(lower), torch.as_tensor(upper)
+        tshape = tuple(target.shape) if isinstance(target, torch.Tensor) else ()
+        if tshape:
+            pf = fn(torch.full(tshape, float((lo + up).reshape(-1)[0]) / 2, dtype=torch.float64))
+            elementwise = tuple(pf.shape) == tshape
+            c.check("%s call %d: fn maps a tensor of the target's shape elementwise" % (self.name, k), api.Rel(elementwise, 1.0, "fn returns shape %s for an input of shape %s" % (tuple(pf.shape), tshape)))
         if bool((lo < up).all()):
             fl, fu = fn(lo), fn(up)
             tol = 1e-12
@@ -95,7 +119,12 @@ class BisectSpy:
                 inside = bool(((fl <= target + tol) & (target <= fu + tol)).all())
             self.calls[-1]["inside"] = api.Rel(inside, 1.0)
         if self.check_preconditions:
-            c.check("%s call %d: lower < upper" % (self.name, k), api.Rel(bool((lo < up).all()), 1.0, "lower >= upper"))
+            okb = api.Rel(bool((lo < up).all()), 1.0, "lower >= upper")
+            if self.degenerate is None:
+                c.check("%s call %d: lower < upper" % (self.name, k), okb)
+            else:
+                c.check("%s call %d: lower < upper [non-constant sample]" % (self.name, k), api.implies(api.not_(self.degenerate), okb))
+                c.check("%s call %d: lower < upper [constant sample]" % (self.name, k), api.implies(self.degenerate, okb))
             if bool((lo < up).all()):
                 c.check("%s call %d: target between fn(lower) and fn(upper)" % (self.name, k),
                         api.Rel(inside, 1.0, "target %s outside [%s, %s]" % (target, fl, fu)))
